@@ -592,7 +592,7 @@ func c27WireFields(b []byte) []c27Field {
 	return out
 }
 
-var c27MutKinds = []string{"empty", "truncate", "bitflip", "drop-field", "empty-submessage", "cross-type", "random", "byte-insert", "inconsistent-result"}
+var c27MutKinds = []string{"empty", "truncate", "bitflip", "drop-field", "empty-submessage", "cross-type", "random", "byte-insert", "inconsistent-result", "huge-length"}
 
 // c27Feature classifies a hostile input structurally (a predicate over the input bytes and the
 // target's wire schema): which sub-message the decoder will find absent.
@@ -676,7 +676,7 @@ func c27Mutate(rng *vk.Rand, kind string, valid []byte, other []byte) []byte {
 		p := rng.Intn(len(b) + 1)
 		ins := []byte{byte(rng.Intn(256))}
 		return append(b[:p:p], append(ins, b[p:]...)...)
-	case "drop-field", "empty-submessage":
+	case "drop-field", "empty-submessage", "huge-length":
 		// choose a nesting level, then drop a field / empty a length-delimited field there
 		return c27Structural(rng, kind, b, 0)
 	case "cross-type":
@@ -723,7 +723,7 @@ func c27Structural(rng *vk.Rand, kind string, b []byte, depth int) []byte {
 	if kind == "drop-field" {
 		return append(append([]byte(nil), b[:f.start]...), b[f.end:]...)
 	}
-	// empty-submessage: keep the tag, zero the length
+	// empty-submessage: keep the tag, zero the length; huge-length: keep the tag, claim a length close to 2^63
 	var ld []c27Field
 	for _, x := range fs {
 		if x.wtype == 2 {
@@ -740,6 +740,10 @@ func c27Structural(rng *vk.Rand, kind string, b []byte, depth int) []byte {
 	}
 	tagLen++
 	out := append([]byte(nil), b[:f.start+tagLen]...)
+	if kind == "huge-length" {
+		out = append(out, c27PutVarint(uint64(1<<63-1)-uint64(rng.Intn(len(b)+2)))...)
+		return append(out, b[f.payload:]...)
+	}
 	out = append(out, 0)
 	return append(out, b[f.end:]...)
 }
@@ -958,6 +962,9 @@ func TestVerifC27(t *testing.T) {
 		}
 		feat := c27Feature(tg, buf)
 		sig := "hostile:" + tg.name + ":" + feat
+		if feat == "wire-decoder-panic" {
+			sig = "hostile:wire-decoder-panic:" + tg.name // the generated wire decoder itself panics, whatever the target
+		}
 		r.Cover("mutation:" + kind)
 		r.Cover("hostile:" + tg.name)
 		r.Cover("feature:" + strings.SplitN(feat, "=", 2)[0])
